@@ -26,7 +26,7 @@ SPEC = {
         'dec_rdEntry', 'polLoop_fuel_step', 'rdPPol_fuel_free', 'ratIO_scanShrinks',
         # tied to the source through Gen/IOPrec
         'roundtrip_dmodel_src', 'roundtrip_smodel_src', 'roundtrip_dexp_src', 'roundtrip_mpol_src',
-        'roundtrip_sexp_src', 'roundtrip_sexp_src_partial', 'roundtrip_ppol_src',
+        'roundtrip_sexp_src', 'roundtrip_sexp_src_partial', 'roundtrip_ppol_src', 'roundtrip_ppol_or_defect', 'roundtrip_sexp_or_defect',
         'ratIO_noAt', 'ratIO_toCount_lt',
         # witnesses of the two defects (model shares them)
         'rt17_third', 'rt6_third_counterexample', 'ppol_prec6_counterexample', 'count_via_double_counterexample',
